@@ -10,7 +10,7 @@ func init() {
 			"(c) the estimate entry points run the same compute function with the same arguments on a cache context whose write-back is never called; (d) the progress / overshoot / overcharge guards precede the state updates of the swap loop; (e) totals: amount in is ceiled, amount out truncated.",
 		NotCovered:  []string{"the bound on the distance from the exact rational curve", "value equality of estimate and execution beyond 'same code, same arguments'", "the round-trip inequality", "18- vs 36-digit regimes"},
 		Assumptions: []string{"operands of the price functions are positive and liquidity − product > 0 (direction inference)", "rounding classes of osmomath as proved by C12"},
-		MinObl:      108,
+		MinObl:      114,
 		Run:         runC03,
 	})
 }
@@ -118,6 +118,15 @@ func itoa(i int) string { return string(rune('0' + i)) }
 // swapTotalRules: integer totals of a swap (shared by C01 and C03).
 func swapTotalRules(c *rules.Ctx) {
 	const K = "x/concentrated-liquidity.Keeper."
+	// what is settled with the trader is what the swap computed (never the amounts the caller offered)
+	c.Let("RES_OI", "cl.Keeper.computeOutAmtGivenIn(...)#0")
+	c.Let("RES_IO", "cl.Keeper.computeInAmtGivenOut(...)#0")
+	c.CallArg(K+"swapOutAmtGivenIn", "cl.Keeper.updatePoolForSwap", 3, "with:TokenOut(with:TokenIn(with:Sender(zero:SwapDetails(),sender), sdk.NewCoin(tokenIn.Denom,{RES_OI}.AmountIn)), sdk.NewCoin(tokenOutDenom,{RES_OI}.AmountOut))", "exact-in: the trader is debited the amount the swap consumed and credited the amount it produced")
+	c.CallArg(K+"swapInAmtGivenOut", "cl.Keeper.updatePoolForSwap", 3, "with:TokenOut(with:TokenIn(with:Sender(zero:SwapDetails(),sender), sdk.NewCoin(tokenInDenom,{RES_IO}.AmountIn)), sdk.NewCoin(desiredTokenOut.Denom,{RES_IO}.AmountOut))", "exact-out: the trader is debited the computed input and credited the computed output")
+	c.CallArg(K+"swapOutAmtGivenIn", "cl.Keeper.updatePoolForSwap", 5, "{RES_OI}.SpreadRewards", "…with the spread rewards of that computation")
+	c.CallArg(K+"swapInAmtGivenOut", "cl.Keeper.updatePoolForSwap", 5, "{RES_IO}.SpreadRewards", "…with the spread rewards of that computation")
+	c.Returns(K+"swapOutAmtGivenIn", 0, "sdk.NewCoin(tokenIn.Denom,{RES_OI}.AmountIn) | zero:Coin()", "…and the same consumed amount is reported", "/settled")
+	c.Returns(K+"swapInAmtGivenOut", 0, "sdk.NewCoin(tokenInDenom,{RES_IO}.AmountIn) | zero:Coin()", "…and the same input is reported", "/settled")
 	c.Returns(K+"computeOutAmtGivenIn", 0, "has(with:AmountIn(_, sdkmath.LegacyDec.TruncateInt(sdkmath.LegacyDec.Ceil(_))))", "exact-in total: the amount charged is the ceiling of the consumed amount", "/in")
 	c.Returns(K+"computeOutAmtGivenIn", 0, "has(with:AmountOut(_, sdkmath.LegacyDec.TruncateInt(non(sdkmath.LegacyDec.Ceil(_)))))", "exact-in total: the amount paid out is truncated", "/out")
 	c.Returns(K+"computeInAmtGivenOut", 0, "has(with:AmountIn(_, sdkmath.LegacyDec.TruncateInt(sdkmath.LegacyDec.Ceil(_))))", "exact-out total: the amount charged is the ceiling of the calculated amount", "/in")
